@@ -149,7 +149,16 @@ def run(tier: str) -> int:
         if len(h) == 4 and useful(h) and any(op[0] == "Damage" for op in h):
             for flavour in range(5):
                 hists.append([tuple(op) + ((flavour,) if op[0] == "Damage" else ()) for op in h])
-    log(f"[C09] G altered entries: {len(hists) - n3} histories with an ill-typed field in an entry whose path and checksum still match")
+    # near twins: c4 is c1 behind a byte order mark (Write c1, Scan, Write c4, Scan and the other way round)
+    n4 = len(hists)
+    tw = dict(Paths='{"p1", "p2"}', Contents='{"c1", "c4"}', MaxOps=4, Ops='{"Write", "Scan"}', FaultKinds='{"truncated"}')
+    g5 = tlc.run("Workspace", tlc.cfg(tw, spec="Spec", invariants=["TypeOK"]), wd, dump=True, cfgname="Workspace_twins.cfg", coverage=False)
+    for st in read_dump(g5.dump):
+        h = [list(x) for x in st["hist"]]
+        if len(h) == 4 and useful(h) and len({op[2] for op in h if op[0] == "Write"}) == 2:
+            hists.append([tuple(op) for op in h])
+    log(f"[C09] G near twins: {len(hists) - n4} histories that rewrite a file with the same text behind a byte order mark")
+    log(f"[C09] G altered entries: {n4 - n3} histories with an ill-typed field in an entry whose path and checksum still match")
     log(f"[C09] G histories: {n1} of length {b['replay']['MaxOps']} over all operations, {n2 - n1} of length 5 for the version guard, {n3 - n2} of length 5 for path identity (same file name in two directories)")
     rng = random.Random(seed() * 13 + 9)
     rnd = [random_history(rng, rng.randint(*b["rnd_len"])) for _ in range(b["rnd"])]
@@ -165,7 +174,7 @@ def run(tier: str) -> int:
             events.append(ev)
             owner.append((hi, si))
     log(f"[C09] G replayed {len(hists)} exhaustive histories of length {b['replay']['MaxOps']} + {len(rnd)} random ones on real directories: {len(events)} steps, {t.s()}s")
-    rejected = accept(wd, events, {"Paths": '{"p1", "p2", "p3"}', "Contents": '{"c1", "c2", "c3"}'})
+    rejected = accept(wd, events, {"Paths": '{"p1", "p2", "p3"}', "Contents": '{"c1", "c2", "c3", "c4"}'})
     for k, clause in sorted(rejected.items()):
         hi, si = owner[k]
         h = allh[hi][: si + 1]
@@ -202,7 +211,7 @@ def replay(path: str) -> int:
         return 2
     evs = [e for e in r[1] if e["exc"] != "precondition"]
     wd = workdir(PROP, "replay")
-    rej = accept(wd, evs, {"Paths": '{"p1", "p2", "p3"}', "Contents": '{"c1", "c2", "c3"}'}, name="replay")
+    rej = accept(wd, evs, {"Paths": '{"p1", "p2", "p3"}', "Contents": '{"c1", "c2", "c3", "c4"}'}, name="replay")
     for k, e in enumerate(evs):
         print(k, e["op"], "->", e["post"]["outcome"], e["exc"], "REJECTED " + rej[k] if k in rej else "")
     if rej:
